@@ -452,3 +452,42 @@ MCQ_STATIC = [
     _mcq_census.sites("mcq: dequeueOvercommit write sites", [MCQ],
                       r"\bdequeueOvercommit\.(fetch_add|fetch_sub|store|exchange|compare_exchange\w*)", 6),
 ]
+
+
+# ---- ImplicitProducer::new_block_index (added by main after seeded change C17-5 was missed): growth of the circular block index ----
+MCQ_IDX_LOOP_COPY = """
+__CPROVER_assigns(i, prevPos, g_ws_written, g_v_places, g_v_slot)
+__CPROVER_loop_invariant(i < g_prevcap && prevPos == ((prevTail + i) & (g_prevcap - 1)))
+__CPROVER_loop_invariant(g_ws_written == (g_ws < i) && g_f_places == 0)
+__CPROVER_loop_invariant((i > g_prevcap - 1 - g_d) ? (g_v_places == 1 && g_v_slot == g_prevcap - 1 - g_d) : g_v_places == 0)
+"""
+MCQ_IDX_LOOP_FRESH = """
+__CPROVER_assigns(i, g_ws_written, g_f_places, g_f_slot, g_fentry, g_fother)
+__CPROVER_loop_invariant(i <= entryCount && g_ws_written == (g_ws < prevCapacity + i))
+__CPROVER_loop_invariant((i > g_fj) ? (g_f_places == 1 && g_f_slot == prevCapacity + g_fj && g_fentry.constructed && g_fentry.key == INVALID_BLOCK_BASE) : (g_f_places == 0 && !g_fentry.constructed))
+"""
+MCQ_UNITS.append(Unit("mcq.new_block_index", "../C17/mcq_index.c", enforce="new_block_index", lifts={"body": Lift(MCQ, r"bool new_block_index\(\)", rules=[
+    Sub(r"\bauto (\w+) = blockIndex\.load\([^)]*\);", r"struct bih *\1 = self->blockIndex;", 1),
+    Sub(r"\bauto (entryCount|prevTail|prevPos)\b", r"size_t \1", None),
+    Sub(r"\bauto raw = static_cast<char\*>\(\(Traits::malloc\)\(", "char *raw = (char*)(vx_index_malloc(", 1),
+    Sub(r"\bstd::alignment_of<([\w*]+)>::value", r"_Alignof(\1)", None),
+    Sub(r"\bauto (\w+) = new \(raw\) BlockIndexHeader;", r"struct bih *\1 = header_construct(raw);", 1),
+    Sub(r"\bauto (\w+) = reinterpret_cast<BlockIndexEntry\*>\(\s*detail::align_for<BlockIndexEntry>\(raw \+ ([^;]*?)\)\);", r"struct ents *\1 = entries_place(raw, \2);", 1),
+    Sub(r"\bauto (\w+) =\s*reinterpret_cast<BlockIndexEntry\*\*>\(detail::align_for<BlockIndexEntry\*>\(\s*reinterpret_cast<char\*>\((\w+)\) \+ ([^;]*?)\)\);",
+        r"struct idx *\1 = index_place(\2, \3);", 1),
+    Sub(r"(\w+)->tail\.load\([^)]*\)", r"\1->tail", None),
+    Sub(r"(\w+)->tail\.store\(\s*([^;]*?), std::memory_order_\w+\);", r"\1->tail = \2;", None),
+    Sub(r"\bstd::copy\((\w+)->index, \1->index \+ (\w+), (\w+)\);", r"index_copy(\3, \1->index, \2);", None),
+    Sub(r"\bnew \((\w+) \+ (\w+)\) BlockIndexEntry;", r"entry_construct(\1, \2);", None),
+    Sub(r"\b(\w+)\[(\w+)\]\.key\.store\((\w+), std::memory_order_\w+\);", r"entry_key_store(\1, \2, \3);", None),
+    Sub(r"(?<![\w>])index\[([^\]]+)\] = ([^;]+);", r"index_set(index, \1, \2);", None),
+    Sub(r"(\w+)->index\[(\w+)\]", r"index_get(\1->index, \2)", None),
+    Sub(r"\bentries \+ (\w+)", r"entry_at(entries, \1)", None),
+    Sub(r"\bblockIndex\.store\((\w+), std::memory_order_\w+\);", r"blockindex_publish(self, \1);", 1),
+    Call(r"\bassert", "VX_PIKA_ASSERT({args})", None),
+    Members(["nextBlockIndexCapacity"]),
+], loops={"by_pattern": [(r"do\b", MCQ_IDX_LOOP_COPY, False), (r"for\s*\(\s*size_t i = 0; i != entryCount", MCQ_IDX_LOOP_FRESH, True)]})},
+    funcs=[MCQ + ": ConcurrentQueue::ImplicitProducer::new_block_index"], min_obligations=20, solver=["--sat-solver", "cadical"],
+    doc="I: growing the circular block index keeps every carried-over entry at the same distance behind the tail (what the lookup "
+        "arithmetic relies on), puts each fresh entry in one slot after the tail, initialises every slot once, publishes a complete "
+        "header; nothing changes when the allocation fails (symbolic power-of-two capacities)"))
